@@ -358,7 +358,12 @@ pub fn build(
                 let mut function = function.clone();
                 let original_name = function.name.clone();
                 if associated_functions_used_names.contains(&original_name) {
-                    function.name = format!("{}_{}", base_name, original_name);
+                    // the parts may be raw identifiers (`r#type`); the combined name is not
+                    function.name = format!(
+                        "{}_{}",
+                        base_name.strip_prefix("r#").unwrap_or(&base_name),
+                        original_name.strip_prefix("r#").unwrap_or(&original_name)
+                    );
                 }
                 function.body = FunctionBody::field(base_name.clone(), original_name);
                 associated_functions_used_names.insert(function.name.clone());
